@@ -26,10 +26,10 @@ def derives_from_call(body, flow, local, names):
     return [(b, t) for b, t in body.calls() if t['dest']['l'] in back and cname(t) in names]
 
 
-def check_F1(ctx, facts, cfg):
-    n = 0
+def check_F1(ctx, facts, cfg, sem_decided=()):
+    n = len(sem_decided)
     for body in facts.bodies.values():
-        if body.crate != 'datacake_rpc' or body.d['promoted']:
+        if body.crate != 'datacake_rpc' or body.d['promoted'] or body.name in sem_decided:
             continue
         for ub, ut in body.calls():
             if cname(ut) not in tables.RKYV_UNCHECKED:
@@ -117,7 +117,7 @@ def _slice_roots(body, flow, arg):
     return roots
 
 
-def check_F2(ctx, facts, cfg):
+def check_F2(ctx, facts, cfg, reader_sem=False):
     w = facts.body(RK + 'to_view_bytes')
     r = facts.body(RK + 'view::DataView::using')
     if w is None or r is None:
@@ -129,18 +129,25 @@ def check_F2(ctx, facts, cfg):
     r_hash = [(b, t) for b, t in rc if cname(t) == 'crc32fast::hash' or (cname(t) and cname(t).endswith('::hash') and 'crc' in cname(t))]
     w_enc = [(b, t) for b, t in wc if cname(t) and re.match(r'core::num::<impl u\d+>::to_(le|be|ne)_bytes$', cname(t))]
     r_dec = [(b, t) for b, t in rc if cname(t) and re.match(r'core::num::<impl u\d+>::from_(le|be|ne)_bytes$', cname(t))]
-    ok = len(w_hash) == 1 and len(r_hash) == 1 and len(w_enc) == 1 and len(r_dec) == 1
+    if reader_sem and (len(r_hash) != 1 or len(r_dec) != 1) and len(w_hash) == 1 and len(w_enc) == 1:
+        # the reader was decided semantically (crc32fast::hash of the body against u32::from_le_bytes of the trailer): the writer must match that
+        wname, ename = cname(w_hash[0][1]), cname(w_enc[0][1])
+        ctx.ob('C12.F2', cfg + '|same-hash', wname == 'crc32fast::hash', site(w, w_hash[0][1]['cs']), 'writer hashes with %s, the reader with crc32fast::hash' % wname)
+        ctx.ob('C12.F2', cfg + '|codec', ename == 'core::num::<impl u32>::to_le_bytes', site(w, w_enc[0][1]['cs']), 'trailer written with %s, read as u32 little-endian' % last_seg(ename))
+        r_hash = r_dec = None
+    ok = len(w_hash) == 1 and len(w_enc) == 1 and (r_hash is None or (len(r_hash) == 1 and len(r_dec) == 1))
     if not ok:
         ctx.bad('C12.F2', cfg + '|shape', site(w), 'writer/reader do not each use one hash and one integer codec (writer %d/%d, reader %d/%d): unrecognised idiom, fail closed'
                 % (len(w_hash), len(w_enc), len(r_hash), len(r_dec)))
         return
-    same_hash = cname(w_hash[0][1]) == cname(r_hash[0][1])
-    ctx.ob('C12.F2', cfg + '|same-hash', same_hash, site(r, r_hash[0][1]['cs']),
-           'writer and reader hash with %s / %s' % (cname(w_hash[0][1]), cname(r_hash[0][1])))
     we = re.match(r'core::num::<impl (u\d+)>::to_(le|be|ne)_bytes$', cname(w_enc[0][1]))
-    rd = re.match(r'core::num::<impl (u\d+)>::from_(le|be|ne)_bytes$', cname(r_dec[0][1]))
-    ctx.ob('C12.F2', cfg + '|codec', we.groups() == rd.groups(), site(r, r_dec[0][1]['cs']),
-           'trailer written as %s %s-endian, read as %s %s-endian' % (we.group(1), we.group(2), rd.group(1), rd.group(2)))
+    if r_hash is not None:
+        same_hash = cname(w_hash[0][1]) == cname(r_hash[0][1])
+        ctx.ob('C12.F2', cfg + '|same-hash', same_hash, site(r, r_hash[0][1]['cs']),
+               'writer and reader hash with %s / %s' % (cname(w_hash[0][1]), cname(r_hash[0][1])))
+        rd = re.match(r'core::num::<impl (u\d+)>::from_(le|be|ne)_bytes$', cname(r_dec[0][1]))
+        ctx.ob('C12.F2', cfg + '|codec', we.groups() == rd.groups(), site(r, r_dec[0][1]['cs']),
+               'trailer written as %s %s-endian, read as %s %s-endian' % (we.group(1), we.group(2), rd.group(1), rd.group(2)))
     width = int(we.group(1)[1:]) // 8
     # writer: the encoded checksum derives from the hash; append happens after into_inner; hash over the buffer appended to
     ext = [(b, t) for b, t in wc if cname(t) and cname(t).endswith('::extend_from_slice')]
@@ -169,6 +176,8 @@ def check_F2(ctx, facts, cfg):
     ctx.ob('C12.F2', cfg + '|writer-order', bool(good), site(w),
            'writer: serialise -> into_inner -> hash(buffer) -> append encoded hash, nothing appended afterwards' if good else
            'writer does not append exactly hash(finished buffer) as the last bytes')
+    if reader_sem:
+        return
     # reader: both ranges cut at len - width; hash over RangeTo, trailer from RangeFrom
     subs = []
     for b, j, s in r.assigns():
@@ -332,10 +341,15 @@ R_ = 'datacake_rpc::'
 
 
 def check(ctx):
+    import frame_abs
     for cfg in CONFIGS:
         facts = ctx.facts(cfg)
-        check_F1(ctx, facts, cfg)
-        check_F2(ctx, facts, cfg)
+        # SEM: the frame guard summarised over the three length classes x checksum match (frame_abs); subsumes F1 for that doorway
+        # and the reader half of F2
+        sem = frame_abs.check_frame(ctx, facts, 'C12.SEM', cfg + '|')
+        using = [b.name for b in facts.bodies.values() if b.crate == 'datacake_rpc' and not b.d['promoted'] and b.name.endswith('::DataView::using')]
+        check_F1(ctx, facts, cfg, sem_decided=using if sem else ())
+        check_F2(ctx, facts, cfg, reader_sem=bool(sem))
         check_F3(ctx, facts, cfg)
         check_F4(ctx, facts, cfg)
         check_F5(ctx, facts, cfg)
